@@ -17,7 +17,7 @@ EXPLANATION = (
     'are read off the extracted function. Fingerprint::same is decided to be blake3== AND ftype== (R2), and fingerprints flow only into '
     '`same` (data independence: any other use is reported). reconcile() is checked to iterate keys(a) U keys(b), look each side up with the '
     'same path, take the base per C07.R4, reach reconcile_path for every path of the union before the next iteration (no fast path that skips the decision), and push exactly the non-Noop actions (R4). reconcile may be written as a loop or as a filter_map chain; the walked union must be sorted and duplicate-free (sort+dedup or an ordered set). The decision-DAG engine reads closures called by name, Option::filter and Option == Option, so a table written with helper closures is decided per field. (X1) The Lean mirror is evaluated on the same valuations as a '
-    'cross-check (informational).')
+    'cross-check (informational). (R5) = C07.R4 under this property: the base value handed to reconcile_path is None or exists only behind trust_base == true, in every body of reconcile (loop, closures, a variable that is the base behind the trust test and an empty map otherwise).')
 ASSUMPTIONS = ['derived PartialEq on [u8;32] and on FileType is structural equality',
                'MIR of the analysed functions is loop-free (otherwise: no verdict)']
 
